@@ -1314,7 +1314,11 @@ def run(ctx):
             n = rng.randrange(3, 14 if rng.random() < 0.8 else 40)
             B = rng.choice([3, 15, 255, 4095]) if kind == "smallint" else (2 ** 22) // n
             if kind == "smallint-collinear":      # slopes that differ by 1/(dt dt') only
-                sl, off = rng.randint(-(B // (2 * n)), B // (2 * n)), rng.randint(-B // 4, B // 4)
+                if rng.random() < 0.5:      # the steepest ramps the class allows: |dx| up to 2B
+                    sl = rng.choice([1, -1]) * rng.randint(B // n, (2 * B) // n)
+                    off = -B if sl > 0 else B
+                else:
+                    sl, off = rng.randint(-(B // (2 * n)), B // (2 * n)), rng.randint(-B // 4, B // 4)
                 xx = [Fr(max(-B, min(B, off + sl * k + rng.choice([0, 0, 0, 1, -1])))) for k in range(n)]
             else:
                 xx = [Fr(rng.randint(-B, B)) for _ in range(n)]
@@ -1443,6 +1447,7 @@ def run(ctx):
     # Oracle, independent of the model: on faithful stored data the adjacency must be the Fraction
     # criterion of the *stored* float32 values.
     creq, cfa, cimpl, cmeta = [], [], [], []
+    sc_req, sc_meta = [], []
     for cnum in range(160 if quick else 1600):
         n = rng.randrange(2, 12)
         xs = (nprng.rand(n) - 0.3) * 2.0 ** rng.randint(-30, 30)
@@ -1471,6 +1476,28 @@ def run(ctx):
         cfa.append(f"faithfulc {enc_vals(xe)} {tenc}")
         cimpl.append(obs)
         cmeta.append((xs, ts, missing, hor, vg))
+        if not hor:
+            # the same object in other power-of-two units (class_f32_pow2_invariant_decided)
+            a2 = rng.randint(-70, 70)
+            c2 = 0 if ts is None else rng.randint(-70, 70)
+            # overflow is outside the model (IsF32 has no largest exponent): keep every difference
+            # and slope of the rescaled data below 2^120
+            fin = xs[~np.isnan(xs)]
+            mx = 2.0 * float(np.max(np.abs(fin))) if len(fin) else 0.0
+            mdt = 1.0 if ts is None else float(np.min(np.diff(ts))) if n > 1 else 1.0
+            tmax = float(n) if ts is None else float(ts[-1])
+            if not (mx * 2.0 ** a2 < 2.0 ** 120 and mx * 2.0 ** a2 / (mdt * 2.0 ** c2) < 2.0 ** 120
+                    and tmax * 2.0 ** c2 < 2.0 ** 120 and mx / mdt < 2.0 ** 120):
+                ctx.count("float64-callers:rescaling-rejected-overflow")
+            else:
+                try:
+                    vg2 = VG(xs * 2.0 ** a2, timings=None if ts is None else ts * 2.0 ** c2,
+                             missing_values=missing, horizontal=False, silence_level=3)
+                    obs2 = enc_mat(np.array(vg2.adjacency))
+                except (ZeroDivisionError, IndexError) as e:
+                    obs2 = exc_name(e)
+                sc_req.append(f"nouflc {enc_vals(xe)} {tenc} {a2} {c2}")
+                sc_meta.append((xs, ts, missing, a2, c2, obs, obs2))
         ctx.count(f"float64-callers:{kind}:{'default' if tdef else 'given'}-timings:"
                   f"{'horizontal' if hor else 'natural'}")
         ctx.case(("matR", xs.tobytes().hex(), None if ts is None else ts.tobytes().hex(), missing, hor), True)
@@ -1497,6 +1524,20 @@ def run(ctx):
     ctx.correspond("Lean classLogR rndF32 (constructor incl. FIELD conversions, float kernels) == "
                    "VisibilityGraph on float64 callers' series and timings (stored data order-faithful, "
                    "or horizontal)", oreq, oimpl)
+    nsc = 0
+    for ans, (xs, ts, missing, a2, c2, obs, obs2) in zip(common.driver(ctx.pid, sc_req), sc_meta):
+        if ans != "1":
+            ctx.count("float64-callers:rescaled-with-underflow")
+            continue
+        nsc += 1
+        ctx.count("float64-callers:rescaled-no-underflow")
+        if obs != obs2:
+            ctx.fail(sig(missing, False, "affine", bool(np.isnan(xs).any())),
+                     f"natural graph of float64 data changes under x -> 2^{a2} x, t -> 2^{c2} t "
+                     "(no underflow in conversions, differences or slopes: decided in Lean)",
+                     {"x": [float(v) for v in xs], "t": None if ts is None else [float(v) for v in ts],
+                      "value_exponent": a2, "time_exponent": c2, "expected": obs, "observed": obs2})
+    ctx.extra["constructor_pow2_rescalings_checked"] = nsc
     rmod = common.driver(ctx.pid, rreq2)
     ctx.extra["constructor_float_model_on_non_faithful_data"] = {
         "requests": len(rreq2), "agree": sum(a == b for a, b in zip(rmod, rimpl2))}
